@@ -356,6 +356,13 @@ def jobs_check(pid, tier, focus, invariants, note):
         cov.update(scov)
         cov['states'] = cov.get('states', 0) + scov.get('setup_configurations', 0)
         tool += stool
+    if pid == 'C09':
+        # unusual input at the point where a job is started: the first line of the .do file (RedoExec); an abort of the
+        # scheduler there orphans its running jobs
+        import funcheck
+        ecov, etool = funcheck.exec_part(tier, d, verdict, common.build_redo(), pid='C09')
+        cov.update(ecov)
+        tool += etool
     real = jobcheck.real_part(tier, pid, focus, verdict)
     cov.update(real)
     if pid == 'C08':
